@@ -266,3 +266,6 @@ def run(ctx, led):
     run_rule(led, "A13", "Predicate negation is the exact complement (shared with C02-U9)", predrules.negation_exact, ctx)
     from . import C07 as _C07
     run_rule(led, "A14", "no-learning resolver: the flipped decision carries a reason covering every earlier decision level (shared with C07-J7)", _C07.j7, ctx)
+    from . import minimiser
+    run_rule(led, "A15", "semantic minimiser: every folding step maps the values a record stands for to exactly those satisfying the folded predicate (decided on all records of a 5-value window)", minimiser.steps_exact, ctx)
+    run_rule(led, "A16", "semantic minimiser: the emitted predicates describe the record exactly relative to the root domain; holes leave the bounds before redundant holes are dropped", minimiser.emission_exact, ctx)
